@@ -141,6 +141,7 @@ class Binding:
 def bind_args(c: Compiled, binding: Binding, y_sym: SArr, t_sym, hist=None, skip=(), overrides=None):
     """Symbolic argument tuple for the emitted function."""
     sargs = []
+    shared = []
     for pos, (k, a) in enumerate(zip(c.keys, c.args)):
         if pos == 0:            # time / step counter (its frontend name varies: 't', '<input node>/.../t')
             sargs.append(t_sym)
@@ -167,6 +168,15 @@ def bind_args(c: Compiled, binding: Binding, y_sym: SArr, t_sym, hist=None, skip
         if arr.dtype.kind in 'iub':
             sargs.append(arr.copy() if arr.ndim else int(arr))
             continue
+        # two arguments that are ONE array object (or views of the same memory with the same layout) alias in the real
+        # function: writes through one name are seen through the other.  They become one symbolic array as well.
+        if isinstance(a, np.ndarray) and a.ndim:
+            twin = next((sa for (a0, sa) in shared if a0.shape == a.shape and a0.strides == a.strides
+                         and a0.dtype == a.dtype and a0.__array_interface__['data'][0] == a.__array_interface__['data'][0]),
+                        None)
+            if twin is not None:
+                sargs.append(twin)
+                continue
         o = np.empty(arr.shape, dtype=object)
         for ix in np.ndindex(*arr.shape):
             v = float(arr[ix])
@@ -177,6 +187,8 @@ def bind_args(c: Compiled, binding: Binding, y_sym: SArr, t_sym, hist=None, skip
                 o[ix] = s
                 binding.slots.append((k, ix, str(s.e)))
         sargs.append(SArr(o) if arr.ndim else o[()])
+        if isinstance(a, np.ndarray) and a.ndim:
+            shared.append((a, sargs[-1]))
     return sargs
 
 
@@ -278,6 +290,7 @@ def float_args(c: Compiled, env: Dict[str, float], binding: Binding, y_names: Li
     for k, ix, name in binding.slots:
         slot[(k, ix)] = name
     args = []
+    shared = []
     for pos, (k, a) in enumerate(zip(c.keys, c.args)):
         if pos == 0:
             args.append(t_value)
@@ -293,7 +306,16 @@ def float_args(c: Compiled, env: Dict[str, float], binding: Binding, y_names: Li
             args.append(hist_fn if hist_fn is not None else a)
             continue
         is_torch = hasattr(a, 'detach') and hasattr(a, 'clone')
+        if isinstance(a, np.ndarray) and a.ndim:
+            # arguments that share their memory in the returned tuple share it in the replay as well
+            twin = next((x for (a0, x) in shared if a0.shape == a.shape and a0.strides == a.strides and a0.dtype == a.dtype
+                         and a0.__array_interface__['data'][0] == a.__array_interface__['data'][0]), None)
+            if twin is not None:
+                args.append(twin)
+                continue
         arr = np.array(a.detach().cpu().numpy() if is_torch else a, copy=True)
+        if isinstance(a, np.ndarray) and a.ndim:
+            shared.append((a, arr))
         if arr.dtype.kind == 'f':
             for ix in np.ndindex(*arr.shape):
                 n = slot.get((k, ix))
